@@ -352,9 +352,8 @@ def nesting_profile(f, builtin=False):
         for c2 in children(n):
             rec(c2, d)
     rec(f['body'], 0)
-    if builtin:
-        for key, n_ in use_profile(f).items():
-            prof[key] = [0] * n_
+    for key, n_ in use_profile(f).items():
+        prof[key] = [0] * n_
     return {k2: sorted(v) for k2, v in prof.items()}
 
 
@@ -394,6 +393,8 @@ def use_profile(f):
         if k in ('call', 'mcall'):
             c = callee(e)
             return ('result of ' + short(c)) if c else 'expr'
+        if k in ('bin', 'un') and e.get('f'):
+            return 'result of ' + short(norm_(e['f'])) + ':' + str(e.get('op'))
         if k == 'field' and not str(e.get('n', '')).isdigit():
             o = origin(e['e'], depth)
             return o + '.' + e['n'] if o.startswith('#') else o
@@ -413,6 +414,13 @@ def use_profile(f):
         return 'expr'
     prof = Counter()
     for x in walk(f['body']):
+        if x.get('k') == 'struct' and (x.get('p') or '').startswith(('midnight_', '<midnight_')) and len(x.get('fs', [])) >= 2:
+            # a struct literal of the workspace: which value each field receives (exchanged coordinates / limbs / channels)
+            for fname, fe in x['fs']:
+                o = origin(fe)
+                if o not in ('expr', 'local', 'literal'):
+                    prof[f'field {short(norm_(x["p"]))}.{fname} <- {o}'] += 1
+            continue
         if x.get('k') not in ('call', 'mcall'):
             continue
         c = callee(x) or ''
